@@ -1236,7 +1236,15 @@ func (l *Lowerer) buildOverrideInitExpr(expr parser.Expr) ir.OverrideInitExpr {
 				return ir.OverrideInitLiteral{Value: float64(ival)}
 			}
 		}
-		val, err := strconv.ParseFloat(e.Value, 64)
+		// Float literals may carry an f/h type suffix (4.0f), which ParseFloat rejects.
+		fs := e.Value
+		if n := len(fs); n > 1 && (fs[n-1] == 'f' || fs[n-1] == 'h') {
+			isHex := strings.HasPrefix(fs, "0x") || strings.HasPrefix(fs, "0X")
+			if !isHex || strings.ContainsAny(fs, "pP") {
+				fs = fs[:n-1]
+			}
+		}
+		val, err := strconv.ParseFloat(fs, 64)
 		if err != nil {
 			return nil
 		}
